@@ -136,10 +136,14 @@ let () =
     print_endline !res;
     (match wf_check cur.pd with
      | [] -> print_endline "wf ok"
-     | vs -> print_endline ("wf VIOLATION " ^ show_viols vs));
+     | vs ->
+         (* "objects=memory" when every reported object is a NUMA node or a MemCache *)
+         let is_mem (_, i) = match Stdlib.List.nth_opt cur.pd.t_objs (int_of_n i) with
+           | Some o -> let t = int_of_n o.o_type in t = 14 || t = 15 | None -> false in
+         print_endline ("wf VIOLATION " ^ show_viols vs ^ (if Stdlib.List.for_all is_mem vs then " objects=memory" else "")));
     if same || levels_agree cur.pd then print_endline "levels ok" else print_endline "levels DIFF";
     (match !prev with
-     | Some b when not same ->
+     | Some b when not same && not (starts !call "CALL reload") ->
          let may_remove = starts !call "CALL restrict" && starts !res "RES rc=0" in
          let dms = Stdlib.List.filter_map (fun (g, x) -> if x.x_dm then Some g else None) (extras_of b) in
          let vs = (if group_depth_check b.pd = [] then group_depth_check cur.pd else []) @ hist_check b.pd cur.pd may_remove @ (if may_remove then dm_vanish_check b.pd cur.pd dms else []) @ (if starts !call "CALL ud" then [] else ud_check (uds_of (extras_of b)) (uds_of (extras_of cur))) in
